@@ -166,7 +166,9 @@ def tpl_sigattr(ch):
     if wrapped_too:
         src += 'f.__wrapped__ = target\n'
     return dict(template='sigattr', params=dict(inner=inner, shape=shape[0], how=how, wrapped=wrapped_too),
-                source=src, subjects={'f': 'f', 'partial(f)': 'functools.partial(f)'},
+                source=src, subjects={'f': 'f', 'partial(f)': 'functools.partial(f)',
+                                      # a keyword the signature does not name: it lands in **kwargs
+                                      'partial(f, extra=)': 'functools.partial(f, zzextra=1)'},
                 tags={'sigattr'} | ({'wrapped'} if wrapped_too else set()))
 
 
@@ -584,7 +586,26 @@ def tpl_deep(ch):
                 subjects={'deep': 'deep', 'shallow': 'shallow', 'shallow2': 'shallow2'}, tags={'deep'})
 
 
+def tpl_siblings(ch):
+    """Two wrappers made by ONE decorator function: they share a code object and differ in what
+    lives on the function object (keyword defaults, the wrapped callee)."""
+    ia = draw_inner(ch)
+    ib = ch.pick([x for x in INNER_SHAPES if x != ia], 'inner-b')
+    src = (HEADER + 'def inner1({ia}):\n    return 1\n\ndef inner2({ib}):\n    return 2\n\n'
+           'def deco(d):\n'
+           '    def apply(f):\n'
+           '        @functools.wraps(f)\n'
+           '        def w(a, b=d, *args, p=d, **kwargs):\n            return f(*args, **kwargs)\n'
+           '        return w\n'
+           '    return apply\n\n'
+           'w1 = deco(1)(inner1)\nw2 = deco(2)(inner2)\nw3 = deco(3)(inner1)\n').format(ia=ia, ib=ib)
+    subjects = {'w1': 'w1', 'w2': 'w2', 'w3': 'w3', 'partial(w1)': 'functools.partial(w1, 0)',
+                'partial(w2)': 'functools.partial(w2, 0)'}
+    return dict(template='siblings', params=dict(ia=ia, ib=ib), source=src, subjects=subjects, tags={'wrapped'})
+
+
 TEMPLATES = {
+    'siblings': tpl_siblings,
     'deep': tpl_deep,
     'chain': tpl_chain,
     'instdep': tpl_instdep,
